@@ -15,6 +15,7 @@ from executorlib.standalone.inputcheck import (
     check_nested_flux_executor,
     check_oversubscribe,
     check_pmi,
+    check_resource_dict_is_empty,
     validate_number_of_cores,
 )
 from executorlib.standalone.interactive.spawner import (
@@ -76,6 +77,7 @@ class ExecutorWithDependencies(ExecutorBase):
         self._future_hash_dict = {}
         self._task_hash_dict = {}
         self._generate_dependency_graph = plot_dependency_graph
+        self._block_allocation = isinstance(executor, InteractiveExecutor)
 
     def submit(
         self,
@@ -98,6 +100,8 @@ class ExecutorWithDependencies(ExecutorBase):
 
         """
         if not self._generate_dependency_graph:
+            if self._block_allocation:
+                check_resource_dict_is_empty(resource_dict=resource_dict)
             f = super().submit(fn, *args, resource_dict=resource_dict, **kwargs)
         else:
             f = Future()
